@@ -159,12 +159,17 @@ class TLCResult:
         self.coverage = {}
 
 
-def tlc_run(workdir, module, cfg, workers="auto", timeout=600, simulate=None,
+DEFAULT_WORKERS = os.environ.get("VERIF_TLC_WORKERS", "4")
+
+
+def tlc_run(workdir, module, cfg, workers=None, timeout=600, simulate=None,
             depth=None, seed=None, coverage=False, deque=False, heap=None,
             extra=()):
     """Run TLC in workdir (which must contain the spec files)."""
+    if workers in (None, "auto"):
+        workers = DEFAULT_WORKERS
     meta = tempfile.mkdtemp(prefix="meta-", dir=workdir)
-    java_opts = ["-XX:+UseParallelGC"]
+    java_opts = ["-XX:+UseParallelGC", "-XX:ParallelGCThreads=2"]
     if heap:
         java_opts.append("-Xmx%s" % heap)
     java_opts.append("-Xss64m")
@@ -243,7 +248,7 @@ def copy_specs(workdir, names):
         shutil.copy(os.path.join(SPECS, n), os.path.join(workdir, n))
 
 
-def design_check(ctx, module, cfg, deps, timeout=900, workers="auto", label=None,
+def design_check(ctx, module, cfg, deps, timeout=900, workers=None, label=None,
                  coverage=False, heap=None):
     """Exhaustive TLC run of a bounded configuration of the specification.
     A failure here is a problem in the *specification* (exit 2), never a
@@ -328,6 +333,15 @@ def validate_traces(ctx, trace_path, module, cfg, deps, label, timeout=900,
                 m = re.match(r'<<"NONCONF", (\d+)>>', p)
                 if m:
                     ctx.cov["nonconformances"] += int(m.group(1))
+                m = re.match(r'<<"STATS", "(.*)">>$', p)
+                if m:
+                    try:
+                        st = json.loads(m.group(1).replace('\\"', '"'))
+                        acc = ctx.cov.setdefault("exercised", {})
+                        for k, v in st.items():
+                            acc[k] = acc.get(k, 0) + v
+                    except Exception:
+                        pass
             validated_events = len(lines)
             break
         if r.violated is None:
@@ -397,6 +411,8 @@ def classify_for(prop):
             r = r[len("invariant:"):].replace("_", ":", 1)
         if r.startswith("NC:"):
             return "nonconformance"
+        if r.startswith("PANIC"):
+            return "violation"   # the real code panicked: no property survives that
         m = re.match(r"(C\d\d+):", r)
         if m and m.group(1) != prop:
             return "other"
